@@ -13,11 +13,6 @@ EXCEPTIONS = {
     ("sqfs_tree_node_get_path", "memcpy", 0):
         "two-pass length/fill: the buffer is allocated with the sum of strlen(name)+1 over the very parent chain that "
         "the second loop walks backwards; the tree is not modified in between",
-    ("read_inode_dir_ext", "memcpy", 2):
-        "index growth: the doubling loop directly above establishes used + sizeof(ent) + ent.size + 1 <= available "
-        "before both copies",
-    ("read_inode_dir_ext", "sqfs_meta_reader_read", 2):
-        "index growth: same capacity established by the doubling loop above (see memcpy#0)",
 }
 
 
